@@ -221,6 +221,7 @@ func oracleC09(r *Run, cw *cliWorld, w *muxWorld, cfg *muxCfg, lt *trackSpec, me
 	// answers those with an empty body, after which the session is legitimately broken
 	fellOut := false
 	emptyMedia := false
+	firstSegLacksTrack := false
 	firstSegLen := -1
 	for _, nr := range cw.net.log {
 		if nr.delivered && nr.resp != nil && !strings.Contains(nr.url, ".m3u8") {
@@ -245,6 +246,18 @@ func oracleC09(r *Run, cw *cliWorld, w *muxWorld, cfg *muxCfg, lt *trackSpec, me
 			}
 			if firstSegLen < 0 && strings.HasSuffix(stripQuery(nr.url), ".ts") {
 				firstSegLen = len(nr.resp.body)
+				// does the first segment carry data of every track its PMT declares? (own demultiplexer)
+				if smp, trks, _, err := decodeTS(nr.resp.body); err == nil {
+					have := map[int]bool{}
+					for _, x := range smp {
+						have[x.track] = true
+					}
+					for i := range trks {
+						if !have[i] {
+							firstSegLacksTrack = true
+						}
+					}
+				}
 			}
 		}
 	}
@@ -258,8 +271,9 @@ func oracleC09(r *Run, cw *cliWorld, w *muxWorld, cfg *muxCfg, lt *trackSpec, me
 		}
 	}
 	if cw.waitSeen && cw.waitErr != nil && !legitStop[cw.waitErr.Error()] && !fellOut {
-		if cw.waitErr.Error() == "astits: no more packets" && firstSegLen > 0 && firstSegLen <= 4*188 {
-			r.Fail("unexpected-error", "mpegts-first-segment-single-access-unit", "the client cannot initialise its MPEG-TS reader on a first segment of %d bytes (one access unit): %s", firstSegLen, describeErr(cw.waitErr))
+		if cw.waitErr.Error() == "astits: no more packets" && firstSegLen > 0 && (firstSegLen <= 4*188 || firstSegLacksTrack) {
+			r.Fail("unexpected-error", "mpegts-reader-cannot-initialise-on-first-segment", "the client cannot initialise its MPEG-TS reader on the first segment it downloads (%d bytes; a declared track without data in it: %v): %s",
+				firstSegLen, firstSegLacksTrack, describeErr(cw.waitErr))
 			return
 		}
 		// status 500 at the very beginning is what a muxer without content would never send; anything else is unexpected
